@@ -210,7 +210,66 @@ func diskTerm(dir, dbName string, infos []lfs.LTXInfo) (string, bool) {
 	return fmt.Sprintf("(mk_disk %d [%s] %s [%s])", n, strings.Join(pages, ";"), j, strings.Join(fs, ";\n   ")), true
 }
 
-var crashCases *common.CaseFile
+// wdiskTerm renders a WAL-mode crash directory (no hot journal) as the model's [wdisk].
+func wdiskTerm(dir, dbName string, infos []lfs.LTXInfo) (string, bool) {
+	dbDir := filepath.Join(dir, "dbs", dbName)
+	walBytes, err := os.ReadFile(filepath.Join(dbDir, "wal"))
+	if err != nil || len(walBytes) == 0 {
+		return "", false
+	}
+	if _, _, hot := parseJournal(filepath.Join(dbDir, "journal"), 0); hot {
+		return "", false
+	}
+	raw, _ := os.ReadFile(filepath.Join(dbDir, "database"))
+	ps := 0
+	if len(raw) >= 100 {
+		ps = int(binary.BigEndian.Uint16(raw[16:]))
+		if ps == 1 {
+			ps = 65536
+		}
+	}
+	for _, f := range infos {
+		if !f.Valid {
+			return "", false
+		}
+		if ps == 0 && f.PageSize != 0 {
+			ps = int(f.PageSize)
+		}
+	}
+	if ps == 0 || len(raw)%ps != 0 {
+		return "", false
+	}
+	var pages []string
+	n := len(raw) / ps
+	for i := 0; i < n; i++ {
+		pages = append(pages, fmt.Sprintf("(%d, %s)", i+1, lfs.PgTerm(uint32(i+1), raw[i*ps:(i+1)*ps])))
+	}
+	wal := "None"
+	if len(walBytes) >= 32 {
+		salt := uint64(binary.BigEndian.Uint32(walBytes[16:]))<<32 | uint64(binary.BigEndian.Uint32(walBytes[20:]))
+		frames, wps, ok := lfs.ReadWALValid(walBytes)
+		if ok && wps != ps {
+			return "", false
+		}
+		var fs []string
+		for _, f := range frames {
+			fs = append(fs, fmt.Sprintf("mk_wframe %d %s %d", f.Pgno, lfs.PgTerm(f.Pgno, f.Data), f.Commit))
+		}
+		wal = fmt.Sprintf("(Some (%d, [%s]))", salt, strings.Join(fs, "; "))
+	}
+	var xs []string
+	for _, f := range infos {
+		end := int64(0)
+		if f.WALOffset+f.WALSize >= 32 {
+			end = (f.WALOffset + f.WALSize - 32) / int64(24+ps)
+		}
+		salt := uint64(f.Salt1)<<32 | uint64(f.Salt2)
+		xs = append(xs, fmt.Sprintf("mk_wltx %s %d %d", ltxTerm(f), salt, end))
+	}
+	return fmt.Sprintf("(mk_wdisk %d [%s] %s [%s])", n, strings.Join(pages, ";"), wal, strings.Join(xs, ";\n   ")), true
+}
+
+var crashCases, wcrashCases *common.CaseFile
 
 type posImg struct {
 	txid, chk uint64
@@ -234,6 +293,10 @@ func verify(c *common.Ctx, cp crashPoint, dbName string, allowed []posImg, key s
 		}
 	}
 	term, haveTerm := diskTerm(cp.Dir, dbName, infos)
+	wterm, haveWTerm := wdiskTerm(cp.Dir, dbName, infos)
+	if !haveTerm && !haveWTerm {
+		c.Count("crash_dirs_not_encoded", 1)
+	}
 	n, err := lfs.Open(cp.Dir, primary)
 	if err != nil {
 		c.Violate(key+":open", fmt.Sprintf("crash at [%s]: restarting on the data directory fails: %v", cp.Label, err), rep2)
@@ -289,6 +352,13 @@ func verify(c *common.Ctx, cp crashPoint, dbName string, allowed []posImg, key s
 		}
 		crashCases.Add(fmt.Sprintf("(%s,\n  %s)", term, common.CoqNList(obs)), rep2)
 	}
+	if haveWTerm && wcrashCases != nil {
+		obs := []uint64{txid, chk, uint64(len(im.Pages))}
+		for i, pg := range im.Pages {
+			obs = append(obs, lfs.PageChecksum(uint32(i+1), pg))
+		}
+		wcrashCases.Add(fmt.Sprintf("(%s,\n  %s)", wterm, common.CoqNList(obs)), rep2)
+	}
 	if len(im.Pages) > 0 && im.Checksum() != chk {
 		c.Violate(key+":checksum", fmt.Sprintf("crash at [%s]: recovered checksum %016x but the database checksums to %016x", cp.Label, chk, im.Checksum()), rep2)
 		return
@@ -323,6 +393,24 @@ func verify(c *common.Ctx, cp crashPoint, dbName string, allowed []posImg, key s
 	}
 }
 
+// script: the operation shapes the property names, in a fixed order, so that every run interrupts each of them
+// (the random histories add variety on top).
+var script = []hist.Step{
+	{Op: "rtx", Writes: map[uint32]uint64{1: 1, 2: 2, 3: 3}, NewSize: 3},                            // first transaction
+	{Op: "rtx", Writes: map[uint32]uint64{2: 12, 4: 14, 5: 15}, NewSize: 5, JMode: 1, Sector: 4096}, // grow, TRUNCATE mode
+	{Op: "rtx", Writes: map[uint32]uint64{1: 21, 3: 23}, NewSize: 3, JMode: 2},                      // shrink, PERSIST mode
+	{Op: "rtx", Writes: map[uint32]uint64{2: 32}, NewSize: 3, Outcome: int(lfs.RollbackAfterWrite)}, // journal rollback
+	{Op: "rtx", Writes: map[uint32]uint64{1: 41, 2: 42, 3: 43, 4: 44}, NewSize: 4, ToWAL: true},     // switch to WAL
+	{Op: "wtx", Frames: [][2]uint64{{2, 52}, {5, 55}}, NewSize: 5},                                  // first WAL transaction (newest file is a journal one)
+	{Op: "wtx", Frames: [][2]uint64{{3, 63}, {3, 64}}, Aborted: [][2]uint64{{4, 94}}, NewSize: 5, Split: true},
+	{Op: "appckpt", CkptMode: 2},                          // checkpoint + restart
+	{Op: "wtx", Frames: [][2]uint64{{1, 71}}, NewSize: 3}, // WAL shrink after restart
+	{Op: "lfsckpt"},
+	{Op: "wtx", Frames: [][2]uint64{{2, 82}}, NewSize: 3},
+	{Op: "drop"},
+	{Op: "rtx", Writes: map[uint32]uint64{1: 91, 2: 92}, NewSize: 2}, // recreated
+}
+
 func localHistories(c *common.Ctx, r *common.Rand, idx int, wal bool) error {
 	dir, err := os.MkdirTemp(c.OutDir, "c05-")
 	if err != nil {
@@ -337,13 +425,21 @@ func localHistories(c *common.Ctx, r *common.Rand, idx int, wal bool) error {
 	}
 	defer h.Close()
 	nsteps := 9 + r.Intn(5)
+	if idx < 0 {
+		nsteps = len(script)
+	}
 	for i := 0; i < nsteps; i++ {
 		st := h.GenStep()
+		if idx < 0 {
+			st = script[i]
+		}
 		if st.Op == "reopen" || st.Op == "retention" || st.Op == "tmpfile" {
 			continue
 		}
 		// make sure every operation kind of the property is interrupted in every history
-		if h.WALMode && i%3 == 2 {
+		if idx < 0 {
+			// scripted
+		} else if h.WALMode && i%3 == 2 {
 			if r.Bool() {
 				st = hist.Step{Op: "appckpt", CkptMode: r.Intn(4)}
 			} else {
@@ -509,6 +605,11 @@ func replicaApply(c *common.Ctx, r *common.Rand, idx int) error {
 func Run(c *common.Ctx) error {
 	crashCases = c.Cases("cases_c05", "Require Import LF.Model.PageDB LF.Model.Crash.\nLocal Open Scope N_scope.", "disk * list N", "mismatches_crash")
 	crashCases.Shard = 150
+	wcrashCases = c.Cases("cases_c05w", "Require Import LF.Model.PageDB LF.Model.Crash LF.Model.CrashWal.\nLocal Open Scope N_scope.", "wdisk * list N", "mismatches_wcrash")
+	wcrashCases.Shard = 150
+	if err := localHistories(c, c.Rng.Fork(), -1, true); err != nil {
+		return err
+	}
 	for i := 0; i < c.Pick(4, 30); i++ {
 		if err := localHistories(c, c.Rng.Fork(), i, i%2 == 1); err != nil {
 			return err
